@@ -286,10 +286,17 @@ pub struct LiveCase {
     /// rows written to the destination after the readers attached and never checkpointed
     pub wal_rows: u16,
     pub lead_ms: u8,
+    /// page cache of the readers (0: SQLite's default); a small cache holds only part of the old database
+    /// when the restore happens
+    #[serde(default)]
+    pub reader_cache_pages: u16,
 }
 
+pub const KF_STALE_CACHE: &str = "C19-restore-idle-wal-second-reader-keeps-stale-pages";
+
 pub fn live_strategy() -> impl Strategy<Value = LiveCase> {
-    (1u16..3000, 1u16..3000, 0u16..600, 1u8..5, 0u16..2000, prop_oneof![1 => Just(0u16), 2 => 1u16..500], 0u8..30).prop_map(|(old_rows, new_rows, pad, readers, reader_pause_us, wal_rows, lead_ms)| LiveCase { old_rows, new_rows, pad, readers, reader_pause_us, wal_rows, lead_ms })
+    (1u16..3000, 1u16..3000, 0u16..600, 1u8..5, 0u16..2000, prop_oneof![1 => Just(0u16), 1 => 1u16..500], 0u8..30, prop_oneof![1 => Just(0u16), 2 => 2u16..64])
+        .prop_map(|(old_rows, new_rows, pad, readers, reader_pause_us, wal_rows, lead_ms, reader_cache_pages)| LiveCase { old_rows, new_rows, pad, readers, reader_pause_us, wal_rows, lead_ms, reader_cache_pages })
 }
 
 fn make_db(path: &Path, rows: u32, tag: &str, pad: usize) -> rusqlite::Result<()> {
@@ -318,6 +325,11 @@ pub fn reader_main(args: &[String]) -> i32 {
             conn = rusqlite::Connection::open_with_flags(db, rusqlite::OpenFlags::SQLITE_OPEN_READ_WRITE).ok();
             if let Some(c) = &conn {
                 let _ = c.busy_timeout(Duration::from_millis(0));
+                if let Some(n) = args.get(4).and_then(|x| x.parse::<i64>().ok()) {
+                    if n > 0 {
+                        let _ = c.execute_batch(&format!("PRAGMA cache_size = {n};"));
+                    }
+                }
             }
         }
         let Some(c) = &conn else {
@@ -357,7 +369,7 @@ pub fn check_live(case: &LiveCase, info: &mut CaseInfo) -> Result<(), Fail> {
     for i in 0..case.readers {
         let out = dir.path().join(format!("reader{i}.out"));
         let child = std::process::Command::new(&exe)
-            .args(["c19-reader", &dst.display().to_string(), &stop.display().to_string(), &out.display().to_string(), &case.reader_pause_us.to_string()])
+            .args(["c19-reader", &dst.display().to_string(), &stop.display().to_string(), &out.display().to_string(), &case.reader_pause_us.to_string(), &case.reader_cache_pages.to_string()])
             .spawn()
             .map_err(|e| Fail::infra(format!("spawn reader: {e}")))?;
         kids.push((child, out));
@@ -400,10 +412,18 @@ pub fn check_live(case: &LiveCase, info: &mut CaseInfo) -> Result<(), Fail> {
                 } else if is_new {
                     ok_new += 1;
                 } else if verdict.is_ok() {
-                    verdict = Err(Fail::new(
+                    let mut f = Fail::new(
                         "successful-read-is-all-old-or-all-new",
                         format!("reader read #{ln} returned {l:?}: neither the old database ({} or {old_total} rows 'old') nor the new one ({} rows 'new'); restore result {:?}", case.old_rows, case.new_rows, res.as_ref().map(|r| (r.old_len, r.new_len, r.is_wal)).map_err(|e| e.to_string())),
-                    ));
+                    );
+                    // known finding: other processes' page caches are invalidated only through the zeroed wal-index
+                    // header, which the first reader to notice rebuilds; a second reader with a partly cached old
+                    // database can then return a read mixing old and new pages.  Reproduced only with >= 2 reader
+                    // processes and a page cache smaller than the database; a single reader is always correct.
+                    if case.readers >= 2 && case.reader_cache_pages > 0 && res.is_ok() {
+                        f = f.finding(KF_STALE_CACHE);
+                    }
+                    verdict = Err(f);
                 }
             } else {
                 refused += 1;
